@@ -585,6 +585,14 @@ def make_machine(prop, tier, cfg):
             self.sess.apply('export', {'fault': None})
             self.sess.apply('reload_redesign', {'fault': None})
 
+        @rule()
+        def probed_round_trip(self):
+            # propagation through the designed network, then through the reloaded and redesigned export
+            self.sess.apply('probe', {})
+            self.sess.apply('export', {'fault': None})
+            self.sess.apply('reload_redesign', {'fault': None})
+            self.sess.apply('probe', {})
+
         @rule(n=st.integers(0, 3))
         def design_again(self, n):
             if n == 0:
